@@ -34,6 +34,10 @@ SECTION_RE = re.compile(rb'__\w+__')
 def gen_case(seed):
     ch = Choices(seed)
     mem, modes = cartgen.memory_from_choices(ch)
+    if seed[-1] % 4 == 0:
+        # sfx patterns as PICO-8 leaves them when nobody edited them (speed 16, no notes)
+        mem = cartgen.with_untouched_sfx(mem, seed[-2])
+        modes = modes + ('untouched_sfx',)
     vkind = ch.below(4)
     version = [ch.below(64), ch.below(256), 8, ch.below(1000001)][vkind]
     has_label = ch.chance(128)
@@ -66,13 +70,45 @@ def excluded(code):
     return None
 
 
-def check_cart(c, via, case):
+def loaded_and_edited(c, edit_seed, case):
+    """The cart as a user of the library gets it: loaded from a (reference-written) .p8 file, then edited through
+    the library (raw memory writes, map cells in the rows shared with the sprite sheet, sprites, notes).  Returns
+    (game, cart dict describing its contents after the edits)."""
+    from pico8.game.formatter.p8 import P8Formatter
+    data = reffmt.write_p8(c['version'], c['code'], c['mem'], c['label'])
+    try:
+        g = P8Formatter.from_file(io.BytesIO(data))
+        ch = Choices(edit_seed)
+        for _ in range(1 + ch.below(5)):
+            k = ch.below(5)
+            if k == 0:
+                n = 1 + ch.below(40)
+                g.write_cart_data(expand(b'ed' + ch.take(2), n), ch.below(0x4300 - n))
+            elif k == 1:
+                g.map.set_cell(ch.below(128), 32 + ch.below(32), ch.byte())
+            elif k == 2:
+                g.map.set_cell(ch.below(128), ch.below(32), ch.byte())
+            elif k == 3:
+                g.gfx.set_sprite(ch.byte(), [[ch.below(16) for _x in range(1 + ch.below(8))] for _y in range(1 + ch.below(8))])
+            else:
+                g.sfx.set_note(ch.below(64), ch.below(32), pitch=ch.below(64), waveform=ch.below(16), volume=ch.below(8),
+                               effect=ch.below(8))
+    except Exception as e:
+        raise Violation('loading a reference-written .p8 and editing it through the library raised %r' % e, case, 'edit')
+    c2 = dict(c)
+    c2['mem'] = cartgen.flat(g)
+    c2['code'] = b''.join(g.lua.to_lines())
+    return g, c2
+
+
+def check_cart(c, via, case, g=None):
     """c: dict(mem, version, label, code); via in {'stream','file','cli'}."""
     from pico8.game.formatter.p8 import P8Formatter
     from pico8.game import file as pfile
     from pico8 import tool
     try:
-        g = cartgen.make_game(c['mem'], version=c['version'], code=c['code'], label=c['label'])
+        if g is None:
+            g = cartgen.make_game(c['mem'], version=c['version'], code=c['code'], label=c['label'])
     except Exception as e:
         raise Violation('cannot build a cart from generated source %s: %r' % (show(c['code']), e), case, 'build')
     code0 = b''.join(g.lua.to_lines())
@@ -178,10 +214,20 @@ def one(ctx, seed, via):
     if ex:
         ctx.stats.exclude(ex)
         return
-    check_cart(c, via, {'seed': bytes(seed), 'via': via})
+    edited = seed[-3] % 5 == 0
+    if edited:
+        case = {'seed': bytes(seed), 'via': via, 'edited': True}
+        g, c = loaded_and_edited(c, seed[-12:], case)
+        if len(c['mem']) != 0x4300:
+            raise Violation('regions have %d bytes in total after library edits' % len(c['mem']), case, 'edit')
+        check_cart(c, via, case, g)
+    else:
+        check_cart(c, via, {'seed': bytes(seed), 'via': via})
     rich = sum(1 for (_n, lo, hi) in cartgen.REGIONS if cartgen.distinct_values(c['mem'][lo:hi]) >= 16)
     nontrivial = rich >= 3 and c['cstats']['has_special_bytes']
     labs = ['via_' + via, 'label' if c['label'] is not None else 'no_label']
+    if edited:
+        labs.append('loaded_then_edited')
     if not c['cstats']['final_newline']:
         labs.append('no_final_newline')
     if c['crlf']:
@@ -190,6 +236,8 @@ def one(ctx, seed, via):
         labs.append('version>255')
     if c['cstats'].get('luagen'):
         labs.append('luagen_program')
+    if 'untouched_sfx' in c['modes']:
+        labs.append('untouched_sfx')
     ctx.stats.case(seed + via.encode(), nontrivial,
                    {'version': c['version'], 'modes': c['modes'], 'label': c['label'] is not None,
                     'code': show(c['code'], 120)}, labs)
@@ -216,14 +264,18 @@ def replay(case):
         c = gen_case(case['seed'])
         if excluded(c['code']):
             return
-        check_cart(c, case.get('via', 'stream'), case)
+        if case.get('edited'):
+            g, c = loaded_and_edited(c, case['seed'][-12:], case)
+            check_cart(c, case.get('via', 'stream'), case, g)
+        else:
+            check_cart(c, case.get('via', 'stream'), case)
     else:
         check_cart(case['cart'], case.get('via', 'stream'), case)
 
 
 def vacuity(total, tier):
     msgs = []
-    for lab in ('label', 'no_label', 'no_final_newline', 'via_cli', 'via_file'):
+    for lab in ('label', 'no_label', 'no_final_newline', 'via_cli', 'via_file', 'loaded_then_edited', 'untouched_sfx'):
         if total.classes.get(lab, 0) < 3:
             msgs.append('class %s seen %d times' % (lab, total.classes.get(lab, 0)))
     return msgs
